@@ -829,6 +829,7 @@ class Contract:
         self.yields = yields                # generator functions: shape of the items (ListOf(...)) for call sites
         self.event = event                  # ghost event emitted at call sites that use the contract
         self.inline = inline                # verified, but call sites interpret the body (tiny helpers)
+        self.pure_result = pure_result      # the result is a function of the (scalar) arguments: same arguments, same result
         self.func = None
         self.owner = None
         self.raw = None
